@@ -44,8 +44,10 @@ def sym_params(K, name, D, tag="p"):
     if name in ("IsotropicScaling", "AnisotropicScaling"):
         arr = K.reals(tag, shp, lo=Fraction(1, 2), hi=2)
     elif name == "QuaternionRotation":
-        arr = K.reals(tag, shp)
-        K.assume(E.lt(Fraction(1, 100), E.add(*[E.mul(v, v) for v in arr.ravel()])))
+        # all unit quaternions, rationally: q = p*p/|p|^2 (the model stores normalised quaternions)
+        from contracts.c08_linalg import unit_quaternion
+
+        arr = np.array([unit_quaternion(K, tag)], dtype=object)
     elif name == "HomogeneousTransform":
         arr = K.reals(tag, shp)
         M = arr[0][:, :D]
@@ -301,7 +303,15 @@ class InverseLinear:
             fwd = K.call(t, z)
             if K.ensure_returns(fwd):
                 K.ensure_eq("t(inv(x))", fwd, ep, text=Q7)
-        # parameters are shared: change them (replacement, then in-place) and the pair must still be inverse
+        # parameters are shared: change them (in place, then by replacement) and the pair must still be inverse
+        if name not in ("QuaternionRotation", "HomogeneousTransform"):  # (these need a valid rotation / invertible matrix)
+            with torch.no_grad():
+                p = t.data()
+                K.call(p.mul_, 0.5, modifies=[p])
+            y3 = K.call(t, x)
+            b3 = K.call(inv, y3) if not isinstance(y3, Raised) else y3
+            if K.ensure_returns(b3):
+                K.ensure_eq("after-inplace", b3, ep, text=Q7S + " [after an in-place (optimiser-style) update of the parameters]")
         arr2 = sym_params(K, name, D, tag="q")
         r = K.call(t.data_, K.tensor(arr2), modifies=[p for _, p, _ in before])
         if K.ensure_returns(r):
@@ -309,13 +319,6 @@ class InverseLinear:
             b2 = K.call(inv, y2) if not isinstance(y2, Raised) else y2
             if K.ensure_returns(b2):
                 K.ensure_eq("after-replace", b2, ep, text=Q7S + " [after data_() replaced the parameters]")
-        with torch.no_grad():
-            p = t.data()
-            K.call(p.mul_, 0.5, modifies=[p])
-        y3 = K.call(t, x)
-        b3 = K.call(inv, y3) if not isinstance(y3, Raised) else y3
-        if K.ensure_returns(b3):
-            K.ensure_eq("after-inplace", b3, ep, text=Q7S + " [after an in-place update of the parameters]")
 
 
 @register
